@@ -110,4 +110,16 @@ def setNonblock (k : K) (fd : Nat) (b : Bool) : Res Bool :=
   | none => .err .EBADF
   | some (i, o) => .ok o.nonblock (updOfd k i { o with nonblock := b })
 
+/-- `open_tmpfile()` (here-documents): an anonymous read-write file on the lowest free descriptor.  The
+    descriptor does NOT have FD_CLOEXEC (`RealSystem` clears the flag the `tempfile` crate sets); the file
+    is a bookkeeping entry of the tree that no path reaches, mode 0600. -/
+def tmpfile (k : K) : Res Nat :=
+  match allocFd k 0 with
+  | none => .err .EMFILE
+  | some fd =>
+    let p : Path := ["..std", s!"tmp{k.ofds.length}"]
+    .ok fd { k with tree := insert k.tree p (.reg 384 []),
+                    ofds := k.ofds ++ [{ path := p, rd := true, wr := true, app := false, off := 0 }],
+                    fds := setFd k.fds fd (some { ofd := k.ofds.length, cloexec := false }) }
+
 end YashModel.Kernel
